@@ -22,21 +22,55 @@ Qed.
 
 Definition authentic (c : cfg) (m : smsg) : Prop :=
   m_from m = FromKey (peer_key c) /\
-  m_sig m = SigOf (peer_key c) sig_ctx (m_data m) /\
-  m_data m <> [].
+  m_sig m = SigOf (peer_key c) sig_ctx (m_ht m) (m_data m) /\
+  m_data m <> [] /\
+  ht_ok (m_ht m) = true /\
+  m_att m <> AttBad.
+
+(* the shape of verify_msg *)
+Lemma verify_msg_cases m :
+  (exists k, verify_msg m = Ok k /\
+     m_from m = FromKey k /\ m_sig m = SigOf k sig_ctx (m_ht m) (m_data m) /\ m_data m <> [] /\
+     ht_ok (m_ht m) = true /\ m_att m <> AttBad) \/
+  verify_msg m = Err EVerify.
+Proof.
+  unfold verify_msg. destruct (m_data m) as [|d ds] eqn:Ed; [right; reflexivity|].
+  destruct (m_from m) as [k0|]; [|right; reflexivity].
+  destruct (ht_ok (m_ht m)) eqn:Eh; cbn [negb]; [|right; reflexivity].
+  assert (Hsig : m_att m <> AttBad ->
+          (exists k, match m_sig m with
+                     | SigOf k' c h b =>
+                         if Nat.eqb k' k0 && bytes_eqb c sig_ctx && Z.eqb h (m_ht m) && bytes_eqb b (d :: ds)
+                         then Ok k0 else Err EVerify
+                     | SigJunk => Err EVerify
+                     end = Ok k /\
+             FromKey k0 = FromKey k /\ m_sig m = SigOf k sig_ctx (m_ht m) (d :: ds) /\ d :: ds <> [] /\
+             true = true /\ m_att m <> AttBad) \/
+          match m_sig m with
+          | SigOf k' c h b =>
+              if Nat.eqb k' k0 && bytes_eqb c sig_ctx && Z.eqb h (m_ht m) && bytes_eqb b (d :: ds)
+              then Ok k0 else Err EVerify
+          | SigJunk => Err EVerify
+          end = Err EVerify).
+  { intros Ha. destruct (m_sig m) as [k' cx h b|]; [|right; reflexivity].
+    destruct (Nat.eqb k' k0 && bytes_eqb cx sig_ctx && Z.eqb h (m_ht m) && bytes_eqb b (d :: ds)) eqn:E; [|right; reflexivity].
+    left. exists k0. apply andb_true_iff in E as [E E4]. apply andb_true_iff in E as [E E3].
+    apply andb_true_iff in E as [E1 E2].
+    apply Nat.eqb_eq in E1. apply bytes_eqb_spec in E2. apply Z.eqb_eq in E3. apply bytes_eqb_spec in E4.
+    subst. repeat split; auto. discriminate. }
+  destruct (m_att m) eqn:Ea.
+  - apply Hsig. discriminate.
+  - apply Hsig. discriminate.
+  - right. reflexivity.
+Qed.
 
 Lemma verify_msg_ok m k :
   verify_msg m = Ok k ->
-  m_from m = FromKey k /\ m_sig m = SigOf k sig_ctx (m_data m) /\ m_data m <> [].
+  m_from m = FromKey k /\ m_sig m = SigOf k sig_ctx (m_ht m) (m_data m) /\ m_data m <> [] /\
+  ht_ok (m_ht m) = true /\ m_att m <> AttBad.
 Proof.
-  unfold verify_msg. destruct (m_data m) as [|d ds] eqn:Ed; [discriminate|].
-  destruct (m_from m) as [k0|]; [|discriminate].
-  destruct (m_sig m) as [k' cx b|]; [|discriminate].
-  destruct (Nat.eqb k' k0 && bytes_eqb cx sig_ctx && bytes_eqb b (d :: ds)) eqn:E; [|discriminate].
-  intros H; inversion H; subst k0.
-  apply andb_true_iff in E as [E E3]. apply andb_true_iff in E as [E1 E2].
-  apply Nat.eqb_eq in E1. apply bytes_eqb_spec in E2. apply bytes_eqb_spec in E3.
-  subst. repeat split; auto. discriminate.
+  intros E. destruct (verify_msg_cases m) as [(k' & E' & H)|E']; rewrite E' in E; [|discriminate].
+  inversion E; subst. exact H.
 Qed.
 
 Lemma check_recv_ok c m : check_recv (peer_key c) m = Ok tt -> authentic c m.
@@ -48,10 +82,16 @@ Qed.
 
 Lemma check_recv_complete c m : authentic c m -> check_recv (peer_key c) m = Ok tt.
 Proof.
-  intros (Hf & Hs & Hd). unfold check_recv, obind, verify_msg.
+  intros (Hf & Hs & Hd & Hh & Ha). unfold check_recv, obind, verify_msg.
   destruct (m_data m) as [|d ds] eqn:Ed; [congruence|].
-  rewrite Hf, Hs. rewrite Nat.eqb_refl, !bytes_eqb_refl. cbn. rewrite Nat.eqb_refl. reflexivity.
+  rewrite Hf, Hh, Hs. cbn [negb]. rewrite Nat.eqb_refl, !bytes_eqb_refl, Z.eqb_refl. cbn.
+  destruct (m_att m); try congruence; rewrite Nat.eqb_refl; reflexivity.
 Qed.
+
+(* a well-formed attached key never influences the decision *)
+Lemma attached_key_ignored p m k :
+  check_recv p (with_att (AttKey k) m) = check_recv p (with_att AttNone m).
+Proof. reflexivity. Qed.
 
 Section RecvInv.
   Variable c : cfg.
@@ -270,13 +310,13 @@ Qed.
 (* What a relay (or network adversary) that does not hold A's private key can
    put into the signature field: junk, signatures under other keys, or
    signatures A has produced, (context, body) listed in [signed]. *)
-Definition sig_available (A : nat) (signed : list (bytes * bytes)) (g : sgn) : Prop :=
+Definition sig_available (A : nat) (signed : list (bytes * Z * bytes)) (g : sgn) : Prop :=
   match g with
   | SigJunk => True
-  | SigOf k cx b => k <> A \/ In (cx, b) signed
+  | SigOf k cx h b => k <> A \/ In (cx, h, b) signed
   end.
 
-Definition act_available (A : nat) (signed : list (bytes * bytes)) (a : action) : Prop :=
+Definition act_available (A : nat) (signed : list (bytes * Z * bytes)) (a : action) : Prop :=
   match a with
   | AResp (PRecv (Some m)) => sig_available A signed (m_sig m)
   | _ => True
@@ -286,12 +326,12 @@ Theorem recv_returns_submitted : forall c signed acts s tr j m e,
   Forall (act_available (peer_key c) signed) acts ->
   run c c_init acts = (s, tr) ->
   In (ORecvDone j (Some m) e) tr ->
-  authentic c m /\ In (sig_ctx, m_data m) signed.
+  authentic c m /\ In (sig_ctx, m_ht m, m_data m) signed.
 Proof.
   intros c signed acts s tr j m e Hav Hrun Hin.
   destruct (recv_returns_authentic c acts s tr j m e Hrun Hin) as [Ha Hact].
   split; auto. rewrite Forall_forall in Hav. specialize (Hav _ Hact). cbn in Hav.
-  destruct Ha as (_ & Hs & _). rewrite Hs in Hav. cbn in Hav. destruct Hav as [H|H]; [congruence|exact H].
+  destruct Ha as (_ & Hs & _ & _ & _). rewrite Hs in Hav. cbn in Hav. destruct Hav as [H|H]; [congruence|exact H].
 Qed.
 
 (* the session errors on the first bad message: the message does not reach the
@@ -306,20 +346,9 @@ Theorem bad_message_ends_session : forall c s cn m,
 Proof.
   intros c s cn m Hc Hr Hbad. cbn [step]. rewrite Hc, Hr. cbn [reader].
   unfold check_recv, obind in *.
-  assert (Hv : forall k, verify_msg m = Err k -> k = EVerify).
-  { intros k. unfold verify_msg. destruct (m_data m) as [|d ds]; [intros E; inversion E; auto|].
-    destruct (m_from m) as [k0|]; [|intros E; inversion E; auto].
-    destruct (m_sig m) as [k' cx b|]; [|intros E; inversion E; auto].
-    destruct (Nat.eqb k' k0 && bytes_eqb cx sig_ctx && bytes_eqb b (d :: ds)); intros E; inversion E; auto. }
-  assert (Hp : verify_msg m <> Panic).
-  { unfold verify_msg. destruct (m_data m) as [|d ds]; [discriminate|].
-    destruct (m_from m) as [k0|]; [|discriminate].
-    destruct (m_sig m) as [k' cx b|]; [|discriminate].
-    destruct (Nat.eqb k' k0 && bytes_eqb cx sig_ctx && bytes_eqb b (d :: ds)); discriminate. }
-  destruct (verify_msg m) as [k0|k|] eqn:Ev.
+  destruct (verify_msg_cases m) as [(k0 & Ev & _)|Ev]; rewrite Ev in *.
   - destruct (Nat.eqb k0 (peer_key c)); [congruence|]. exists EPeer. split; auto.
-  - rewrite (Hv k eq_refl). exists EVerify. split; auto.
-  - congruence.
+  - exists EVerify. split; auto.
 Qed.
 
 Theorem reader_stopped_after_error : forall c s cn k r,
